@@ -94,9 +94,9 @@ def rule_sharing(chk, db, cfgname, rid):
                 rhs = ' '.join(T.pstr(a) for a in ev.get('args', []))
                 if tgt.lstrip('*').startswith('impl'):
                     n += 1
-                    dep = 'transform' in rhs
+                    dep = 'transform' in rhs or 'cache_' in rhs      # cache_ IS the transformed result
                     chk.obligation(not dep, {'line': ev.get('ln'), 'stored into *impl': rhs[:80],
-                                             'mentions a transform': dep})
+                                             'mentions a transform or cache_': dep})
                     if dep:
                         chk.violation(rid, f, '*impl depends on transform',
                                       'the shared operand vector receives a transformed result (%s): another node '
